@@ -194,7 +194,409 @@ Proof.
          try (destruct (locked (ents s k)) eqn:El; csimp; try discriminate);
          try specialize (Hn eq_refl);
          try lia; try (destruct (Nat.eqb k0 k); csimp; lia)).
-  Show.
+Qed.
+
+(* ---- group B: values *)
+Definition pc_ok (e : nat -> entry) (p : cpc) : Prop :=
+  match p with
+  | DWrite k v => v = fval k
+  | DUnlock k | DRead k | GRead k => isd (e k) = true
+  | _ => True
+  end.
+Definition ret_ok (e : nat -> entry) (cv : call * option nat) : Prop :=
+  match cv with
+  | (CDo k, v) => v = Some (fval k) /\ isd (e k) = true
+  | (CGet k, v) => v = None \/ (v = Some (fval k) /\ isd (e k) = true)
+  end.
+Definition thr_ok (e : nat -> entry) (th : thr) : Prop := pc_ok e (tpc th) /\ Forall (ret_ok e) (rets th).
+
+Record InvB (s : cstate) : Prop := {
+  b_res : forall k, (0 < C (is_st k) (thrs s) \/ isd (ents s k) = true) -> result (ents s k) = Some (fval k);
+  b_thr : Forall (thr_ok (ents s)) (thrs s)
+}.
+
+Lemma ret_ok_mono e e' cv : (forall k, isd (e k) = true -> isd (e' k) = true) -> ret_ok e cv -> ret_ok e' cv.
+Proof. intros H; destruct cv as [[k|k] v]; simpl; intuition. Qed.
+
+Lemma thr_ok_mono e e' th : (forall k, isd (e k) = true -> isd (e' k) = true) -> thr_ok e th -> thr_ok e' th.
+Proof.
+  intros H [Hp Hr]; split.
+  - destruct (tpc th); simpl in *; auto.
+  - eapply Forall_impl; [|exact Hr]. intros cv; apply ret_ok_mono; auto.
+Qed.
+
+Lemma init_InvB : InvB init.
+Proof.
+  constructor.
+  - intros k [H|H]; [|discriminate]. rewrite C_init in H; [lia|]. intros l; apply (start_cur_neutral l k).
+  - unfold cinit; simpl. apply Forall_forall. intros th Hth. apply in_map_iff in Hth as (p & <- & _).
+    split; simpl; [|constructor]. destruct p as [|[] r]; exact I.
+Qed.
+
+Lemma pc_ok_start e l : pc_ok e (fst (start l)).
+Proof. destruct l as [|[] r]; exact I. Qed.
+
+Ltac mono_tac k0 :=
+  let k := fresh "k" in let Hk := fresh "Hk" in
+  intros k Hk; cbn [ents]; unfold upd; try (destruct (Nat.eqb_spec k0 k) as [->|?]); isdsimp; auto.
+
+Lemma step_InvB s t th s' : InvA s -> InvB s -> nth_error (thrs s) t = Some th -> stepC s t th s' -> InvB s'.
+Proof.
+  intros HA [Hres Hthr] Hnth HS.
+  pose proof (Forall_nth_error _ _ _ _ Hthr Hnth) as [Hpc Hrets].
+  destruct HS as [k0 Hp E|k0 Hp E|k0 Hp|k0 Hp E|k0 Hp E|k0 Hp E|k0 Hp E|k0 Hp E|k0 Hp|k0 Hp|k0 v Hp|k0 Hp|k0 Hp|k0 Hp
+                 |k0 Hp E|k0 Hp E|k0 Hp E|k0 Hp E|k0 Hp];
+    rewrite Hp in Hpc; cbn [pc_ok] in Hpc;
+    (constructor;
+     [ intros k;
+       match goal with |- context [set_nth t ?th' _] => pose proof (C_set_nth (is_st k) t _ th' _ Hnth) as Hst end;
+       pose proof (start_cur_neutral (rest th) k) as (_ & _ & _ & _ & Hs5);
+       specialize (Hres k); rewrite Hp in *; csimp; rewrite ?Hs5 in *; csimp;
+       try (key_case k0 k); intros Hor;
+       try solve [apply Hres; destruct Hor as [Hor|Hor]; [left; lia|right; auto]];
+       try (subst; reflexivity)
+     | cbn [thrs ents];
+       apply Forall_set_nth;
+       [ eapply Forall_impl; [|exact Hthr]; intros th0; apply thr_ok_mono; mono_tac k0
+       | split; cbn [tpc rets goto ret pc_ok];
+         try exact I; try apply pc_ok_start; try reflexivity; try assumption;
+         try (unfold upd; rewrite Nat.eqb_refl; isdsimp; auto; fail);
+         try (eapply Forall_impl; [|exact Hrets]; intros cv; apply ret_ok_mono; mono_tac k0; fail);
+         try (constructor; [|eapply Forall_impl; [|exact Hrets]; intros cv; apply ret_ok_mono; mono_tac k0]) ] ]).
+  all: cbn [ret_ok]; auto.
+  (* store: the writer is still at DStore before the step *)
+  apply Hres. left. pose proof (C_ge1 (is_st k) _ _ _ Hnth) as Hge. rewrite Hp in Hge. simpl in Hge.
+  rewrite Nat.eqb_refl in Hge. specialize (Hge eq_refl). lia.
+Qed.
+
+(* ---- group C: the history of plain accesses *)
+Record InvP (s : cstate) : Prop := {
+  p_acc : forall k, (exists t w, In (t, k, w) (plain s)) -> 0 < C (is_st k) (thrs s) \/ isd (ents s k) = true;
+  p_wr : forall k, (0 < C (is_st k) (thrs s) \/ isd (ents s k) = true) -> exists t', In (t', k, true) (plain s);
+  p_wf : wf_plain (plain s)
+}.
+
+Lemma init_InvP : InvP init.
+Proof.
+  constructor; simpl; auto.
+  - intros k (t & w & []).
+  - intros k [H|H]; [|discriminate]. rewrite C_init in H; [lia|]. intros l; apply (start_cur_neutral l k).
+Qed.
+
+Lemma step_InvP s t th s' : InvA s -> InvB s -> InvP s -> nth_error (thrs s) t = Some th -> stepC s t th s' -> InvP s'.
+Proof.
+  intros HA HB [Hacc Hwr Hwf] Hnth HS.
+  pose proof (Forall_nth_error _ _ _ _ (b_thr _ HB) Hnth) as [Hpc Hrets].
+  assert (Hgen : forall th' e' pl',
+            (forall k, C (is_st k) (set_nth t th' (thrs s)) = C (is_st k) (thrs s)) ->
+            (forall k, isd (e' k) = isd (ents s k)) ->
+            pl' = plain s ->
+            InvP (mkC (set_nth t th' (thrs s)) e' pl')).
+  { intros th' e' pl' Hc Hi ->. constructor; cbn [thrs ents plain]; auto.
+    - intros k H. rewrite Hc, Hi. auto.
+    - intros k H. rewrite Hc, Hi in H. auto. }
+  assert (Hst : forall k th', C (is_st k) (set_nth t th' (thrs s)) + b2n (is_st k (tpc th)) = C (is_st k) (thrs s) + b2n (is_st k (tpc th'))).
+  { intros k th'. apply C_set_nth; auto. }
+  assert (Hread : forall k0 th', tpc th = DRead k0 \/ tpc th = GRead k0 -> is_st k0 (tpc th') = false ->
+            (forall k, is_st k (tpc th') = false) ->
+            InvP (mkC (set_nth t th' (thrs s)) (ents s) ((t, k0, false) :: plain s))).
+  { intros k0 th' Hp Hf Hall.
+    assert (Hd : isd (ents s k0) = true) by (destruct Hp as [Hp|Hp]; rewrite Hp in Hpc; exact Hpc).
+    assert (Hc : forall k, C (is_st k) (set_nth t th' (thrs s)) = C (is_st k) (thrs s)).
+    { intros k. specialize (Hst k th'). rewrite Hall in Hst. destruct Hp as [Hp|Hp]; rewrite Hp in Hst; simpl in Hst; lia. }
+    constructor; cbn [thrs ents plain].
+    - intros k (t' & w & [Heq|Hin]).
+      + inversion Heq; subst. right; auto.
+      + rewrite Hc. apply Hacc. eauto.
+    - intros k H. rewrite Hc in H. destruct (Hwr k H) as (t' & Ht'). exists t'. right; auto.
+    - simpl. split; [apply Hwr; right; auto|auto]. }
+  destruct HS as [k0 Hp E|k0 Hp E|k0 Hp|k0 Hp E|k0 Hp E|k0 Hp E|k0 Hp E|k0 Hp E|k0 Hp|k0 Hp|k0 v Hp|k0 Hp|k0 Hp|k0 Hp
+                 |k0 Hp E|k0 Hp E|k0 Hp E|k0 Hp E|k0 Hp];
+    try (apply Hgen;
+            [ intros k; specialize (Hst k); match goal with |- context [set_nth t ?th' _] => specialize (Hst th') end;
+              pose proof (start_cur_neutral (rest th) k) as (_ & _ & _ & _ & Hs5);
+              rewrite Hp in Hst; csimp; rewrite ?Hs5 in Hst; csimp; lia
+            | intros k; try unfold upd; try (destruct (Nat.eqb_spec k0 k) as [->|?]); isdsimp; auto
+            | reflexivity ]; fail).
+  - (* the plain write *)
+    pose proof (a_lock _ HA k0) as Hl. pose proof (C_sum_le k0 (thrs s)) as Hsum.
+    pose proof (C_ge1 (is_wr k0) _ _ _ Hnth) as Hge. rewrite Hp in Hge. simpl in Hge. rewrite Nat.eqb_refl in Hge.
+    specialize (Hge eq_refl).
+    assert (Hnone : ~ (0 < C (is_st k0) (thrs s) \/ isd (ents s k0) = true)).
+    { intros [H|H].
+      - destruct (locked (ents s k0)); simpl in Hl; lia.
+      - pose proof (a_nof _ HA k0 H). lia. }
+    constructor; cbn [thrs ents plain].
+    + intros k (t' & w & [Heq|Hin]).
+      * inversion Heq; subst. left. specialize (Hst k (goto th (DStore k))). rewrite Hp in Hst. simpl in Hst.
+        rewrite Nat.eqb_refl in Hst. simpl in Hst. lia.
+      * specialize (Hst k (goto th (DStore k0))). rewrite Hp in Hst. simpl in Hst.
+        destruct (Hacc k) as [H|H]; eauto.
+        -- left. lia.
+        -- right. unfold upd. destruct (Nat.eqb_spec k0 k) as [->|?]; isdsimp; auto.
+    + intros k H. destruct (Nat.eq_dec k0 k) as [->|Hne]; [exists t; left; auto|].
+      specialize (Hst k (goto th (DStore k0))). rewrite Hp in Hst. simpl in Hst.
+      apply Nat.eqb_neq in Hne. rewrite Hne in Hst. simpl in Hst.
+      destruct (Hwr k) as (t' & Ht').
+      { destruct H as [H|H]; [left; lia|right]. unfold upd in H. rewrite Hne in H. auto. }
+      exists t'. right; auto.
+    + simpl. split; auto. intros t' w' Hin. apply Hnone. apply Hacc. eauto.
+  - (* store: st-1, done becomes true *)
+    constructor; cbn [thrs ents plain]; auto.
+    + intros k H. specialize (Hst k (goto th (DUnlock k0))). rewrite Hp in Hst. simpl in Hst.
+      unfold upd. destruct (Nat.eqb_spec k0 k) as [->|Hne]; isdsimp; auto.
+      destruct (Hacc k H); auto. left. simpl in Hst. lia.
+    + intros k H. apply Hwr. specialize (Hst k (goto th (DUnlock k0))). rewrite Hp in Hst. simpl in Hst.
+      unfold upd in H. destruct (Nat.eqb_spec k0 k) as [->|Hne]; isdsimp.
+      * left. simpl in Hst. lia.
+      * simpl in Hst. destruct H; [left; lia|right; auto].
+  - apply Hread with (k0 := k0); auto; intros; apply (start_cur_neutral (rest th)).
+  - apply Hread with (k0 := k0); auto; intros; apply (start_cur_neutral (rest th)).
+Qed.
+
+(* ---- group D: each thread executes its program, call by call *)
+Definition cur (p : cpc) : list call :=
+  match p with
+  | Idle => []
+  | DLoad k | DLoadOrStore k | DLoad1 k | DLock k | DLoad2 k | DCall k | DInF k | DWrite k _ | DStore k
+  | DUnlock k | DRead k => [CDo k]
+  | GLoad k | GLoad1 k | GRead k => [CGet k]
+  end.
+Definition calls_of (th : thr) : list call := rev (map fst (rets th)) ++ cur (tpc th) ++ rest th.
+
+Lemma start_cur l : cur (fst (start l)) ++ snd (start l) = l.
+Proof. destruct l as [|[] r]; reflexivity. Qed.
+
+Lemma step_calls s t th s' : nth_error (thrs s) t = Some th -> stepC s t th s' ->
+  map calls_of (thrs s') = map calls_of (thrs s).
+Proof.
+  intros Hnth HS.
+  assert (Hsame : forall th', calls_of th' = calls_of th -> map calls_of (set_nth t th' (thrs s)) = map calls_of (thrs s)).
+  { intros th' He. rewrite map_set_nth, He. apply set_nth_same. rewrite nth_error_map, Hnth. reflexivity. }
+  destruct HS; cbn [thrs]; apply Hsame; unfold calls_of; cbn [goto ret tpc rest rets map rev fst];
+    try (rewrite H; reflexivity);
+    rewrite H; cbn [cur]; rewrite <- !app_assoc; cbn [app]; rewrite start_cur; reflexivity.
+Qed.
+
+Lemma init_calls : map calls_of (thrs init) = progs.
+Proof.
+  unfold cinit; cbn [thrs]. rewrite map_map. rewrite <- (map_id progs) at 2. apply map_ext.
+  intros p. unfold calls_of; simpl. apply start_cur.
+Qed.
+
+(* ---- all invariants on reachable states *)
+Lemma creachable_inv s : creachable s -> InvA s /\ InvB s /\ InvP s /\ map calls_of (thrs s) = progs.
+Proof.
+  induction 1 as [|s t s' Hr (HA & HB & HP & HD) Hs].
+  - split; [|split; [|split]]; [apply init_InvA|apply init_InvB|apply init_InvP|apply init_calls].
+  - apply cstep_inv in Hs as (th & Hnth & HS).
+    split; [|split; [|split]]; [eapply step_InvA|eapply step_InvB|eapply step_InvP|]; eauto.
+    rewrite (step_calls _ _ _ _ Hnth HS); auto.
+Qed.
+
+(* ---- group E: a finished thread has no calls left *)
+Definition idle_ok (th : thr) : Prop := tpc th = Idle -> rest th = [].
+
+Lemma start_idle l : fst (start l) = Idle -> snd (start l) = [].
+Proof. destruct l as [|[] r]; simpl; auto; discriminate. Qed.
+
+Lemma creachable_idle s : creachable s -> Forall idle_ok (thrs s).
+Proof.
+  induction 1 as [|s t s' Hr IH Hs].
+  - unfold cinit; cbn [thrs]. apply Forall_forall. intros th Hth. apply in_map_iff in Hth as (p & <- & _).
+    unfold idle_ok; simpl. apply start_idle.
+  - apply cstep_inv in Hs as (th & Hnth & HS).
+    destruct HS; cbn [thrs]; apply Forall_set_nth; auto; unfold idle_ok; cbn [goto ret tpc rest];
+      try discriminate; apply start_idle.
+Qed.
+
+(* ---- property theorems *)
+
+(* f_k is called at most once, and returns at most as often as it was called *)
+Theorem f_once_per_key s k : creachable s ->
+  fbegins (ents s k) <= 1 /\ fends (ents s k) <= fbegins (ents s k).
+Proof.
+  intros Hr. destruct (creachable_inv s Hr) as (HA & _).
+  pose proof (a_lock _ HA k) as Hl. pose proof (a_nof _ HA k) as Hn.
+  pose proof (a_fb _ HA k) as Hfb. pose proof (a_fe _ HA k) as Hfe.
+  pose proof (C_sum_le k (thrs s)) as Hsum.
+  destruct (isd (ents s k)); [specialize (Hn eq_refl)|]; destruct (locked (ents s k)); simpl in *; lia.
+Qed.
+
+Lemma done_f_complete s k : InvA s -> isd (ents s k) = true -> fbegins (ents s k) = 1 /\ fends (ents s k) = 1.
+Proof.
+  intros HA Hd. pose proof (a_nof _ HA k Hd) as Hn.
+  pose proof (a_fb _ HA k) as Hfb. pose proof (a_fe _ HA k) as Hfe. rewrite Hd in *. simpl in *. lia.
+Qed.
+
+(* every finished Do(k) returned the value of the one call of f_k, and that call had completed *)
+Theorem do_returns_f_value s t th k v : creachable s -> nth_error (thrs s) t = Some th ->
+  In (CDo k, v) (rets th) ->
+  v = Some (fval k) /\ fbegins (ents s k) = 1 /\ fends (ents s k) = 1 /\ result (ents s k) = Some (fval k).
+Proof.
+  intros Hr Hn Hin. destruct (creachable_inv s Hr) as (HA & HB & _).
+  pose proof (Forall_nth_error _ _ _ _ (b_thr _ HB) Hn) as [_ Hrets].
+  rewrite Forall_forall in Hrets. destruct (Hrets _ Hin) as [Hv Hd].
+  destruct (done_f_complete s k HA Hd). repeat split; auto. apply (b_res _ HB). auto.
+Qed.
+
+(* a Do(k) that is about to return (only the plain read of e.result is left) returns after f_k completed *)
+Theorem do_after_f s t th k : creachable s -> nth_error (thrs s) t = Some th -> tpc th = DRead k ->
+  fends (ents s k) = 1 /\ result (ents s k) = Some (fval k) /\ C (is_inf k) (thrs s) = 0.
+Proof.
+  intros Hr Hn Hp. destruct (creachable_inv s Hr) as (HA & HB & _).
+  pose proof (Forall_nth_error _ _ _ _ (b_thr _ HB) Hn) as [Hpc _]. rewrite Hp in Hpc. simpl in Hpc.
+  destruct (done_f_complete s k HA Hpc). pose proof (a_nof _ HA k Hpc).
+  repeat split; auto; [apply (b_res _ HB); auto|lia].
+Qed.
+
+(* every finished Get(k) returned nil or the value of the completed call of f_k *)
+Theorem get_nil_or_value s t th k v : creachable s -> nth_error (thrs s) t = Some th ->
+  In (CGet k, v) (rets th) ->
+  v = None \/ (v = Some (fval k) /\ fends (ents s k) = 1).
+Proof.
+  intros Hr Hn Hin. destruct (creachable_inv s Hr) as (HA & HB & _).
+  pose proof (Forall_nth_error _ _ _ _ (b_thr _ HB) Hn) as [_ Hrets].
+  rewrite Forall_forall in Hrets. destruct (Hrets _ Hin) as [Hv|[Hv Hd]]; auto.
+  right. split; auto. apply (done_f_complete s k HA Hd).
+Qed.
+
+(* Get has no blocking step: in ANY state a thread inside Get can take its next step *)
+Theorem get_nonblocking s t th : nth_error (thrs s) t = Some th -> in_get (tpc th) = true ->
+  exists s', cstep s t = Some s'.
+Proof.
+  intros Hn Hg. unfold ParCache.cstep. rewrite Hn. destruct (tpc th); try discriminate.
+  - destruct (present (ents s k)); eauto.
+  - destruct (isd (ents s k)); eauto.
+  - eauto.
+Qed.
+
+(* no data race on e.result: a pending plain write is never concurrent with another thread's
+   pending plain access to the same entry; and the history of plain accesses is well-formed
+   (per key: one write, before all reads) *)
+Theorem race_free s : creachable s ->
+  (forall a b tha thb k, a <> b -> nth_error (thrs s) a = Some tha -> nth_error (thrs s) b = Some thb ->
+     plain_write k (tpc tha) = true -> plain_write k (tpc thb) = false /\ plain_read k (tpc thb) = false) /\
+  wf_plain (plain s).
+Proof.
+  intros Hr. destruct (creachable_inv s Hr) as (HA & HB & HP & _). split; [|apply HP].
+  intros a b tha thb k Hab Ha Hb Hw.
+  pose proof (a_lock _ HA k) as Hl. pose proof (C_sum_le k (thrs s)) as Hsum.
+  assert (Hwa : is_wr k (tpc tha) = true) by (destruct (tpc tha); simpl in *; auto).
+  pose proof (C_ge1 (is_wr k) _ _ _ Ha Hwa) as Hge.
+  assert (Hnd : isd (ents s k) = false).
+  { destruct (isd (ents s k)) eqn:E; auto. pose proof (a_nof _ HA k E). lia. }
+  split.
+  - destruct (plain_write k (tpc thb)) eqn:Ewb; auto.
+    assert (Hwb : is_wr k (tpc thb) = true) by (destruct (tpc thb); simpl in *; auto).
+    pose proof (C_ge2 (is_wr k) _ _ _ _ _ Hab Ha Hb Hwa Hwb).
+    destruct (locked (ents s k)); simpl in Hl; lia.
+  - destruct (plain_read k (tpc thb)) eqn:Erb; auto.
+    pose proof (Forall_nth_error _ _ _ _ (b_thr _ HB) Hb) as [Hpc _].
+    destruct (tpc thb); simpl in *; try discriminate; apply Nat.eqb_eq in Erb; subst; congruence.
+Qed.
+
+(* when every thread has finished its program: f_k ran exactly once for every key some Do asked for *)
+Theorem f_exactly_once_at_end s : creachable s -> all_idle s = true ->
+  forall p k, In p progs -> In (CDo k) p ->
+  fbegins (ents s k) = 1 /\ fends (ents s k) = 1 /\ result (ents s k) = Some (fval k).
+Proof.
+  intros Hr Hidle p k Hp Hk.
+  destruct (creachable_inv s Hr) as (HA & HB & _ & HD).
+  pose proof (creachable_idle s Hr) as HE.
+  rewrite <- HD in Hp. apply in_map_iff in Hp as (th & <- & Hth).
+  unfold all_idle in Hidle. rewrite forallb_forall in Hidle. specialize (Hidle _ Hth).
+  unfold is_idle in Hidle. destruct (tpc th) eqn:Ep; try discriminate.
+  rewrite Forall_forall in HE. pose proof (HE _ Hth Ep) as Hrest.
+  unfold calls_of in Hk. rewrite Ep, Hrest in Hk. simpl in Hk. rewrite app_nil_r in Hk.
+  apply in_rev in Hk. apply in_map_iff in Hk as ([c v] & Hc & Hin). simpl in Hc; subst c.
+  apply In_nth_error in Hth as [t Ht].
+  destruct (do_returns_f_value s t th k v Hr Ht Hin) as (_ & ? & ? & ?). auto.
+Qed.
+
+(* ---- progress and termination *)
+Lemma step_some s t th : nth_error (thrs s) t = Some th -> tpc th <> Idle ->
+  (forall k, tpc th = DLock k -> locked (ents s k) = false) -> exists s', cstep s t = Some s'.
+Proof.
+  intros Hn Hi Hl. unfold ParCache.cstep. rewrite Hn.
+  destruct (tpc th) eqn:Ep; try congruence; eauto.
+  - rewrite (Hl k eq_refl). eauto.
+  - destruct (present (ents s k)); eauto.
+  - destruct (isd (ents s k)); eauto.
+Qed.
+
+Lemma forallb_false {A} (f : A -> bool) l : forallb f l = false -> exists x, In x l /\ f x = false.
+Proof.
+  induction l as [|a l IH]; simpl; [discriminate|].
+  destruct (f a) eqn:E; simpl; intros H.
+  - destruct (IH H) as (x & Hx & Hf). exists x; auto.
+  - exists a; auto.
+Qed.
+
+(* no deadlock: unless every thread has finished its program, some thread has a step (a thread
+   blocked in Lock implies a holder, and the holder is never blocked) *)
+Theorem cache_no_deadlock s : creachable s -> all_idle s = true \/ exists t s', cstep s t = Some s'.
+Proof.
+  intros Hr. destruct (creachable_inv s Hr) as (HA & _).
+  destruct (all_idle s) eqn:Ei; auto. right.
+  apply forallb_false in Ei as (th & Hth & Hni). apply In_nth_error in Hth as [t Ht].
+  assert (Hnot : tpc th <> Idle) by (unfold is_idle in Hni; destruct (tpc th); congruence).
+  destruct (tpc th) eqn:Ep; try (exists t; apply (step_some s t th Ht); rewrite Ep; congruence).
+  (* th waits for the mutex of k *)
+  destruct (locked (ents s k)) eqn:El.
+  - pose proof (a_lock _ HA k) as Hl. rewrite El in Hl. simpl in Hl.
+    destruct (cntg_exists (fun th => holds k (tpc th)) (thrs s)) as (t2 & th2 & Ht2 & Hh); [unfold C in Hl; lia|].
+    exists t2. apply (step_some s t2 th2 Ht2); destruct (tpc th2); simpl in Hh; congruence.
+  - exists t. apply (step_some s t th Ht); rewrite Ep; [congruence|]. intros k' Hk'; inversion Hk'; subst; auto.
+Qed.
+
+Lemma tweight_ret th c v : 2 <= rank (tpc th) -> tweight (ret th c v) < tweight th.
+Proof.
+  unfold tweight, ret; simpl. destruct (rest th) as [|[] r]; simpl; lia.
+Qed.
+
+(* every step consumes the measure: no schedule is infinite (f_k is assumed to return: its
+   return step is always enabled) *)
+Theorem psi_decreases s t s' : cstep s t = Some s' -> psi s' < psi s.
+Proof.
+  intros Hs. apply cstep_inv in Hs as (th & Hn & HS). unfold psi.
+  assert (Hgen : forall th', tweight th' < tweight th ->
+            list_sum (map tweight (set_nth t th' (thrs s))) < list_sum (map tweight (thrs s))).
+  { intros th' Hlt. pose proof (sum_set_nth tweight t th' th _ Hn). lia. }
+  destruct HS; cbn [thrs]; apply Hgen; try (apply tweight_ret; rewrite H; simpl; lia);
+    unfold tweight; cbn [goto tpc rest]; rewrite H; simpl; lia.
+Qed.
+
+Lemma crun_cons t sch s : crun (t :: sch) s = match cstep s t with Some s' => crun sch s' | None => None end.
+Proof. reflexivity. Qed.
+
+Theorem cache_terminates sch : forall s s', crun sch s = Some s' -> length sch + psi s' <= psi s.
+Proof.
+  induction sch as [|t sch IH]; intros s s' H; [|rewrite crun_cons in H].
+  - inversion H; subst; simpl; lia.
+  - destruct (cstep s t) as [s1|] eqn:E; [|discriminate].
+    pose proof (psi_decreases _ _ _ E). specialize (IH _ _ H). simpl. lia.
+Qed.
+
+Lemma crun_reachable sch : forall s s', creachable s -> crun sch s = Some s' -> creachable s'.
+Proof.
+  induction sch as [|t sch IH]; intros s s' Hr H; [|rewrite crun_cons in H].
+  - inversion H; subst; auto.
+  - destruct (cstep s t) as [s1|] eqn:E; [|discriminate]. eapply IH; [|exact H]. eapply creach_step; eauto.
+Qed.
+
+(* every Do terminates: from any reachable state some continuation of at most psi(s) steps ends
+   with all programs finished *)
+Theorem cache_can_finish s : creachable s ->
+  exists sch s', crun sch s = Some s' /\ all_idle s' = true /\ length sch <= psi s.
+Proof.
+  remember (psi s) as m eqn:Em. revert s Em.
+  induction m as [m IH] using lt_wf_ind. intros s Em Hr.
+  destruct (cache_no_deadlock s Hr) as [Hd|(t & s1 & Hs)].
+  - exists [], s; simpl; repeat split; auto; lia.
+  - pose proof (psi_decreases _ _ _ Hs) as Hlt.
+    destruct (IH (psi s1)) with (s := s1) as (sch & s' & Hrun & Hd & Hlen); auto; [lia|eapply creach_step; eauto|].
+    exists (t :: sch), s'. rewrite crun_cons, Hs. repeat split; auto. simpl; lia.
 Qed.
 
 End Proofs.
